@@ -25,8 +25,14 @@ def make_factory(impl):
     def factory():
         v = Utf8Validator()
         if want:
-            got = v.lib.nvx_utf8vld_set_impl(v._vld, want)
-            assert got == want, (got, want)
+            # the validator's native handle, whatever the wrapper calls it: the one attribute that is a cffi pointer
+            ffi = _nvx_utf8validator.ffi
+            handles = [x for x in vars(v).values() if isinstance(x, ffi.CData)]
+            if len(handles) != 1:
+                raise RuntimeError("cannot find the native validator handle on %r" % (vars(v),))
+            got = _nvx_utf8validator.lib.nvx_utf8vld_set_impl(handles[0], want)
+            if got != want:
+                raise RuntimeError("nvx_utf8vld_set_impl: %r != %r" % (got, want))
         return v
     return factory, _nvx_utf8validator.__file__
 
